@@ -140,8 +140,23 @@ static vr::obj head(const char *op, const char *be, const char *ty, Kind K, cons
 }
 static int pick_n(vr::rng &g) { int k = g.below(10); return k == 0 ? 0 : (k == 1 ? 1 : g.range(2, vr::thorough() ? 40 : 17)); }
 
+// ---- extreme magnitudes: a coefficient scaled by 2^-k against an old output scaled by 2^+k (or the other way round).
+// The exponents cancel exactly, so the defining formula on the recorded integer mantissas is unchanged; k is chosen so
+// that |coef|^2 underflows (resp. overflows) in the real type involved: a zero test must look at the value, not at a norm.
+template <class R> int kext() { return (-std::numeric_limits<R>::min_exponent + std::numeric_limits<R>::digits) / 2 + 8; }
+template <class C> void scale2(C &c, size_t len, int k) {
+    typedef typename elem_of<C>::type E; typedef VT<E> T; typedef typename T::S S; typedef typename ST<S>::real R;
+    const R f = std::ldexp((R)1, k);
+    for (size_t i = 0; i < len; ++i) { E e = c[i]; for (int r = 0; r < T::R; ++r) for (int q = 0; q < T::C; ++q) T::set(e, r, q, T::get(e, r, q) * f); c[i] = e; }
+}
+template <class Coef> Coef scaled_coef(CF a, int k) { typedef typename ST<Coef>::real R; return mkc<Coef>::get(a) * std::ldexp((R)1, k); }
+template <class Coef, class C> int kfor() { typedef typename ST<typename VT<typename elem_of<C>::type>::S>::real RV; typedef typename ST<Coef>::real RC; return std::min(kext<RV>(), kext<RC>()); }
+template <class Coef> CF pick_nz(vr::rng &g, bool not_one = false) { CF c; do c = pick<Coef>(g, 0.0); while (c.zero() || (not_one && c.re == 1 && c.im == 0)); return c; }
+
 // ---------------------------------------------------------------- element-wise primitives
 // V: container of rhs values, MVc: container of matrix values (x of vmul), Coef: coefficient type
+template <class A, class Z, class Y> void vmul_zx(A a, Z &z, const Y &y, A c, std::true_type) { backend::vmul(a, z, y, c, z); }
+template <class A, class Z, class Y> void vmul_zx(A, Z &, const Y &, A, std::false_type) {}
 template <class V, class MVc, class Coef>
 void elem_ops(vr::rng &g, const char *be, const char *ty, int reps) {
     typedef typename elem_of<V>::type E; typedef typename elem_of<MVc>::type ME;
@@ -171,6 +186,53 @@ void elem_ops(vr::rng &g, const char *be, const char *ty, int reps) {
             vr::obj o = head("vmul", be, ty, K); o.raw("a", cf_json(a, K.cx)).raw("bb", cf_json(b, K.cx));
             o.raw("x", fv_json(x)).raw("y", fv_json(y)).raw("z", fv_json(z)).raw("out", fv_json(read(Z.get(), n, W))); put(o);
         } catch (const std::exception &e) { vr::obj o = head("vmul", be, ty, K); o.str("exc", e.what()); vr::emit(o.done()); }
+        // ---- the output is also an input (valid: IDR(s) calls axpbypcz with z aliasing x); definitions from the saved copies
+        try {
+            int n = pick_n(g); FV x = gen_fv(g, n, W), y = gen_fv(g, n, W); CF a = pick<Coef>(g), b = pick<Coef>(g), c = pick_nz<Coef>(g, true);
+            {   H<V> Y(n), Z(n); fill(Y.get(), n, y); fill(Z.get(), n, x);                      // z aliases x
+                backend::axpbypcz(mkc<Coef>::get(a), Z.get(), mkc<Coef>::get(b), Y.get(), mkc<Coef>::get(c), Z.get());
+                vr::obj o = head("axpbypcz", be, ty, K); o.str("alias", "z=x").raw("a", cf_json(a, K.cx)).raw("bb", cf_json(b, K.cx)).raw("c", cf_json(c, K.cx));
+                o.raw("x", fv_json(x)).raw("y", fv_json(y)).raw("z", fv_json(x)).raw("out", fv_json(read(Z.get(), n, W))); put(o); }
+            {   H<V> X(n), Z(n); fill(X.get(), n, x); fill(Z.get(), n, y);                      // z aliases y
+                backend::axpbypcz(mkc<Coef>::get(a), X.get(), mkc<Coef>::get(b), Z.get(), mkc<Coef>::get(c), Z.get());
+                vr::obj o = head("axpbypcz", be, ty, K); o.str("alias", "z=y").raw("a", cf_json(a, K.cx)).raw("bb", cf_json(b, K.cx)).raw("c", cf_json(c, K.cx));
+                o.raw("x", fv_json(x)).raw("y", fv_json(y)).raw("z", fv_json(y)).raw("out", fv_json(read(Z.get(), n, W))); put(o); }
+            {   H<V> Y(n); fill(Y.get(), n, y);                                                 // axpby with y aliasing x
+                backend::axpby(mkc<Coef>::get(a), Y.get(), mkc<Coef>::get(c), Y.get());
+                vr::obj o = head("axpby", be, ty, K); o.str("alias", "y=x").raw("a", cf_json(a, K.cx)).raw("bb", cf_json(c, K.cx)).raw("x", fv_json(y)).raw("y", fv_json(y)).raw("out", fv_json(read(Y.get(), n, W))); put(o); }
+            {   FV d = gen_fv(g, n, MW); H<MVc> D(n); H<V> Z(n); fill(D.get(), n, d); fill(Z.get(), n, y);   // vmul with z aliasing y
+                backend::vmul(mkc<Coef>::get(a), D.get(), Z.get(), mkc<Coef>::get(c), Z.get());
+                vr::obj o = head("vmul", be, ty, K); o.str("alias", "z=y").raw("a", cf_json(a, K.cx)).raw("bb", cf_json(c, K.cx));
+                o.raw("x", fv_json(d)).raw("y", fv_json(y)).raw("z", fv_json(y)).raw("out", fv_json(read(Z.get(), n, W))); put(o); }
+            if (std::is_same<V, MVc>::value) {                                                  // scalars: vmul with z aliasing x
+                H<MVc> Z(n); H<V> Y(n); fill(Z.get(), n, x); fill(Y.get(), n, y);
+                vmul_zx(mkc<Coef>::get(a), Z.get(), Y.get(), mkc<Coef>::get(c), std::is_same<V, MVc>());
+                vr::obj o = head("vmul", be, ty, K); o.str("alias", "z=x").raw("a", cf_json(a, K.cx)).raw("bb", cf_json(c, K.cx));
+                o.raw("x", fv_json(x)).raw("y", fv_json(y)).raw("z", fv_json(x)).raw("out", fv_json(read(Z.get(), n, W))); put(o); }
+            {   H<V> X(n); fill(X.get(), n, x);                                                 // copy onto itself
+                backend::copy(X.get(), X.get());
+                vr::obj o = head("copy", be, ty, K); o.str("alias", "y=x").raw("x", fv_json(x)).raw("y", fv_json(x)).raw("out", fv_json(read(X.get(), n, W))); put(o); }
+        } catch (const std::exception &e) { vr::obj o = head("axpbypcz", be, ty, K); o.str("alias", "z=x").str("exc", e.what()); vr::emit(o.done()); }
+        // ---- extreme-magnitude output coefficients: tiny coefficient x huge old output, and huge coefficient x tiny old output
+        try {
+            for (int dir = 1; dir >= -1; dir -= 2) {
+                const int k = dir * kfor<Coef, V>(); const char *ext = dir > 0 ? "tiny coefficient, huge old output" : "huge coefficient, tiny old output";
+                int n = g.range(1, 9); FV x = gen_fv(g, n, W), y = gen_fv(g, n, W), z = gen_fv(g, n, W), d = gen_fv(g, n, MW);
+                CF a = pick<Coef>(g), b = pick<Coef>(g), c = pick_nz<Coef>(g);
+                if (mkc<Coef>::cx && g.coin(0.4)) { c.re = 0; if (c.im == 0) c.im = 1; }        // purely imaginary
+                {   H<V> X(n), Y(n); fill(X.get(), n, x); fill(Y.get(), n, y); scale2(Y.get(), n, k);
+                    backend::axpby(mkc<Coef>::get(a), X.get(), scaled_coef<Coef>(c, -k), Y.get());
+                    vr::obj o = head("axpby", be, ty, K); o.str("ext", ext).raw("a", cf_json(a, K.cx)).raw("bb", cf_json(c, K.cx)).raw("x", fv_json(x)).raw("y", fv_json(y)).raw("out", fv_json(read(Y.get(), n, W))); put(o); }
+                {   H<V> X(n), Y(n), Z(n); fill(X.get(), n, x); fill(Y.get(), n, y); fill(Z.get(), n, z); scale2(Z.get(), n, k);
+                    backend::axpbypcz(mkc<Coef>::get(a), X.get(), mkc<Coef>::get(b), Y.get(), scaled_coef<Coef>(c, -k), Z.get());
+                    vr::obj o = head("axpbypcz", be, ty, K); o.str("ext", ext).raw("a", cf_json(a, K.cx)).raw("bb", cf_json(b, K.cx)).raw("c", cf_json(c, K.cx));
+                    o.raw("x", fv_json(x)).raw("y", fv_json(y)).raw("z", fv_json(z)).raw("out", fv_json(read(Z.get(), n, W))); put(o); }
+                {   H<MVc> D(n); H<V> Y(n), Z(n); fill(D.get(), n, d); fill(Y.get(), n, y); fill(Z.get(), n, z); scale2(Z.get(), n, k);
+                    backend::vmul(mkc<Coef>::get(a), D.get(), Y.get(), scaled_coef<Coef>(c, -k), Z.get());
+                    vr::obj o = head("vmul", be, ty, K); o.str("ext", ext).raw("a", cf_json(a, K.cx)).raw("bb", cf_json(c, K.cx));
+                    o.raw("x", fv_json(d)).raw("y", fv_json(y)).raw("z", fv_json(z)).raw("out", fv_json(read(Z.get(), n, W))); put(o); }
+            }
+        } catch (const std::exception &e) { vr::obj o = head("axpby", be, ty, K); o.str("ext", "tiny/huge").str("exc", e.what()); vr::emit(o.done()); }
         try {   // copy, clear: the destination is poisoned throughout
             int n = pick_n(g); FV x = gen_fv(g, n, W), y = gen_fv(g, n, W); poison(g, y);
             H<V> X(n), Y(n); fill(X.get(), n, x); fill(Y.get(), n, y);
@@ -285,7 +347,7 @@ template <class Block> struct HybridP {     // F is block-level; the backend con
 
 // spmv / residual with matrix policy P, vector containers VX (x), VY (y, f, r)
 template <class P, class VX, class VY, class Coef>
-void mat_ops(vr::rng &g, const char *be, const char *ty, const char *mixed, int reps, bool square_ok_empty = true) {
+void mat_ops(vr::rng &g, const char *be, const char *ty, const char *mixed, int reps, bool xbig = false) {
     typedef typename elem_of<VX>::type EX; typedef typename elem_of<VY>::type EY;
     Kind K = P::kind(); const int W = K.W();
     for (int rep = 0; rep < reps; ++rep) {
@@ -302,8 +364,19 @@ void mat_ops(vr::rng &g, const char *be, const char *ty, const char *mixed, int 
                 vr::obj o = head("spmv", be, ty, K, mixed); o.raw("a", cf_json(a, K.cx)).raw("bb", cf_json(b, K.cx));
                 o.raw("A", fm_json(F)).raw("x", fv_json(x)).raw("y", fv_json(y)).raw("out", fv_json(read(Y.get(), ly, W))); put(o);
             }
+            {   // spmv with an extreme-magnitude beta (exponents cancel against the old y)
+                const int k = (rep % 2 ? -1 : 1) * kfor<Coef, VY>();
+                FV x = gen_fv(g, m, W), y = gen_fv(g, n, W); CF a = pick<Coef>(g), b = pick_nz<Coef>(g);
+                if (mkc<Coef>::cx && g.coin(0.4)) { b.re = 0; if (b.im == 0) b.im = -1; }
+                H<VX> X(lx); H<VY> Y(ly); fill(X.get(), lx, x); fill(Y.get(), ly, y); scale2(Y.get(), ly, k);
+                backend::spmv(mkc<Coef>::get(a), *A, X.get(), scaled_coef<Coef>(b, -k), Y.get());
+                vr::obj o = head("spmv", be, ty, K, mixed); o.str("ext", k > 0 ? "tiny coefficient, huge old output" : "huge coefficient, tiny old output").raw("a", cf_json(a, K.cx)).raw("bb", cf_json(b, K.cx));
+                o.raw("A", fm_json(F)).raw("x", fv_json(x)).raw("y", fv_json(y)).raw("out", fv_json(read(Y.get(), ly, W))); put(o);
+            }
             {   // residual: r is write-only
                 FV x = gen_fv(g, m, W), f = gen_fv(g, n, W), r = gen_fv(g, n, W); poison(g, r);
+                // xbig: x = +-(2^24 + 1..7), exact in the (double) vectors but not in a float accumulator
+                if (xbig) for (auto &v : x.v) v = (g.coin() ? 1 : -1) * (16777216LL + g.range(1, 7));
                 H<VX> X(lx); H<VY> Fv(ly), Rv(ly); fill(X.get(), lx, x); fill(Fv.get(), ly, f); fill(Rv.get(), ly, r);
                 backend::residual(Fv.get(), *A, X.get(), Rv.get());
                 vr::obj o = head("residual", be, ty, K, mixed);
@@ -361,7 +434,8 @@ void reint_ops(vr::rng &g, const char *ty, int reps) {
 
 // copy between precisions (mixed-precision solvers copy float <-> double vectors)
 template <class V1, class V2> void copy_conv(vr::rng &g, const char *ty, int reps) {
-    typedef typename elem_of<V1>::type E; Kind K = kind_of<E>(); K.b = VT<E>::R; const int W = K.W();
+    // (a b x c matrix value is recorded as a vector value of b*c scalars: copy is element-wise)
+    typedef typename elem_of<V1>::type E; Kind K = kind_of<E>(); K.b = VT<E>::R * VT<E>::C; const int W = K.W();
     for (int rep = 0; rep < reps; ++rep) {
         int n = pick_n(g); FV x = gen_fv(g, n, W), y = gen_fv(g, n, W); poison(g, y);
         H<V1> X(n); H<V2> Y(n); fill(X.get(), n, x); fill(Y.get(), n, y);
@@ -452,6 +526,15 @@ int main(int argc, char **argv) {
     mat_ops< HybridP< eblk<double,2>::M >, numa_vector<double>, numa_vector<double>, double >(g, "builtin_hybrid", "Eigen::Matrix<double,2,2>", "xy", R);
 #endif
 #if PART == 0 || PART == 4
+    // float matrix under double vectors: the row sum of residual() is accumulated in the precision of the OUTPUT vector
+    mat_ops< CrsP<float>, std::vector<double>, std::vector<double>, double >(g, "builtin", "float matrix/double vectors, x beyond float precision", "", 2 * R, true);
+    mat_ops< CrsP<float>, numa_vector<double>, numa_vector<double>, double >(g, "builtin", "float matrix/double vectors, x beyond float precision", "", R, true);
+    // converting assignment between block values of different precision converts EVERY entry (copy is y[i] = x[i])
+    copy_conv< std::vector< blk<double,2>::M >, std::vector< blk<float,2>::M > >(g, "static_matrix<double,2,2> -> static_matrix<float,2,2>", R);
+    copy_conv< std::vector< blk<double,3>::M >, numa_vector< blk<float,3>::M > >(g, "static_matrix<double,3,3> -> static_matrix<float,3,3>", R);
+    copy_conv< numa_vector< blk<float,4>::M >, std::vector< blk<double,4>::M > >(g, "static_matrix<float,4,4> -> static_matrix<double,4,4>", R);
+    copy_conv< std::vector< blk<double,3>::V >, std::vector< blk<float,3>::V > >(g, "static_matrix<double,3,1> -> static_matrix<float,3,1>", R);
+    copy_conv< std::vector< static_matrix<double,2,3> >, std::vector< static_matrix<float,2,3> > >(g, "static_matrix<double,2,3> -> static_matrix<float,2,3>", R);
     // ... and with a vector precision different from the matrix precision (float blocks under double vectors as in the
     // mixed-precision hybrid set-up, double blocks under float vectors): reinterpret_as_rhs must keep the VECTOR's scalar type
     mat_ops< CrsP< blk<float,2>::M >, std::vector<double>, std::vector<double>, double >(g, "builtin", "static_matrix<float,2,2> matrix/double vectors", "xy", 2 * R);
